@@ -314,7 +314,13 @@ pub fn gen_conv(r: &mut Rng, o: &ConvOpts) -> Vec<Cmd> {
                     seq,
                     kind: CmdKind::Execute {
                         stmt: id,
-                        flags: if r.chance(1, 5) { r.next() as u8 } else { 0 },
+                        // cursor-type byte: 0 as a rule; the cursor requests a real client can
+                        // make (READ_ONLY 1, FOR_UPDATE 2, SCROLLABLE 4); anything
+                        flags: match r.below(10) {
+                            0 => *r.pick(&[1u8, 1, 2, 4, 5]),
+                            1 => r.next() as u8,
+                            _ => 0,
+                        },
                         iters: if r.chance(1, 5) { r.next() as u32 } else { 1 },
                         block,
                     },
@@ -499,4 +505,55 @@ pub fn insert_dead_op(r: &mut Rng, cmds: &mut Vec<Cmd>) {
         }
     };
     cmds.insert(pos, cmd);
+}
+
+/// Some executions are answered by a shim that pulls only the first k of its parameters
+/// (k = 0: it never touches the ParamParser, e.g. an execution refused up front). What such an
+/// execution leaves behind must not change what later executions of the statement see.
+pub fn sprinkle_pulls(r: &mut Rng, cmds: &mut [Cmd], one_in: u64) {
+    for c in cmds.iter_mut() {
+        if let (CmdKind::Execute { block, .. }, Act::Program(p)) = (&c.kind, &mut c.act) {
+            let n = block.values.len();
+            if n > 0 && r.chance(1, one_in) {
+                p.pull_params = Some(if r.chance(1, 3) { 0 } else { r.below(n as u64) as u16 });
+            }
+        }
+    }
+}
+
+/// A query whose packet (header + command byte + text) is exactly 4096 * 2^k bytes long: it fills
+/// a read buffer of that size to the brim, so that "the read filled the buffer" coincides with
+/// "a complete command is buffered". Inserted at a random position before QUIT.
+pub fn insert_aligned_query(r: &mut Rng, cmds: &mut Vec<Cmd>) {
+    let limit = cmds
+        .iter()
+        .position(|c| matches!(c.kind, CmdKind::Quit))
+        .unwrap_or(cmds.len());
+    let pos = r.usize_below(limit + 1);
+    let total = 4096usize << r.below(6);
+    let delta = *r.pick(&[0usize, 0, 0, 1, 4]);
+    let n = total - 5 - delta;
+    let mut text = b"aligned ".to_vec();
+    text.extend_from_slice(&blob_ascii(r, n - 8).to_vec());
+    cmds.insert(
+        pos,
+        Cmd {
+            seq: 0,
+            kind: CmdKind::Query(Blob::Lit(text)),
+            act: Act::Program(simple_ok_program()),
+        },
+    );
+}
+
+/// The cursor-type byte of some EXECUTEs asks for a cursor (READ_ONLY 1, FOR_UPDATE 2,
+/// SCROLLABLE 4) or is arbitrary: the library has no cursors, so the reply must stay an
+/// ordinary inline resultset that a client can decode.
+pub fn sprinkle_exec_flags(r: &mut Rng, cmds: &mut [Cmd], one_in: u64) {
+    for c in cmds.iter_mut() {
+        if let CmdKind::Execute { flags, .. } = &mut c.kind {
+            if r.chance(1, one_in) {
+                *flags = if r.chance(1, 4) { r.next() as u8 } else { *r.pick(&[1u8, 1, 2, 4, 5]) };
+            }
+        }
+    }
 }
